@@ -26,6 +26,7 @@ let run_index _ =
   iter_lines (fun line ->
     match words line with
     | [size; h] -> print_endline (z_to_string (seg_index (z_of_string size) (bytes_of_hex h)))
+    | [size] -> print_endline (z_to_string (seg_index (z_of_string size) []))      (* the empty key *)
     | _ -> print_endline "bad")
 
 let () = Registry.register "segkey" run; Registry.register "segkey-index" run_index
